@@ -56,6 +56,7 @@ type Ctx struct {
 	FindingResidual map[string]string
 	afterEntry func(run *funcRun, st *State)
 	singleImplAllowed map[string]bool
+	dispatch map[string]types.Type // interface key -> concrete type
 }
 
 type fieldMode struct {
@@ -81,6 +82,7 @@ type funcRun struct {
 	modularUsed map[string]bool
 	modelVars []ModelVar
 	oldCache  map[*SNode]specVal
+	entryMeasure Term
 }
 
 type siteInfo struct {
@@ -133,6 +135,7 @@ func Load(dir string, patterns []string) (*Ctx, error) {
 		summaries:  map[*ssa.Function]*writeSummary{},
 		pkgOfFile:  map[string]*packages.Package{},
 		singleImplAllowed: map[string]bool{},
+		dispatch: map[string]types.Type{},
 		FindingResidual: map[string]string{},
 	}
 	if len(pkgs) > 0 {
@@ -171,7 +174,7 @@ func (c *Ctx) indexPackage(sp *ssa.Package) {
 				ms := c.Prog.MethodSets.MethodSet(t)
 				for i := 0; i < ms.Len(); i++ {
 					f := c.Prog.MethodValue(ms.At(i))
-					if f != nil && f.Pkg == sp {
+					if f != nil && (f.Pkg == sp || (f.Pkg == nil && f.Synthetic != "" && ms.At(i).Obj().Pkg() == sp.Pkg)) {
 						add(f)
 					}
 				}
@@ -185,6 +188,15 @@ var typeArgRe = regexp.MustCompile(`\[[^\[\]]*\]`)
 // FuncKey is the stable name of a function: pkgpath::relname for functions with a
 // package, the full string otherwise.
 func (c *Ctx) FuncKey(f *ssa.Function) string {
+	if f.Pkg == nil && f.Synthetic != "" && f.Signature.Recv() != nil {
+		// pointer-receiver wrapper of a value method: name it after the receiver's package
+		rt := f.Signature.Recv().Type()
+		if p, ok := rt.(*types.Pointer); ok {
+			if n, ok := p.Elem().(*types.Named); ok && n.Obj().Pkg() != nil {
+				return n.Obj().Pkg().Path() + "::(*" + n.Obj().Name() + ")." + f.Name()
+			}
+		}
+	}
 	if f.Pkg != nil {
 		return f.Pkg.Pkg.Path() + "::" + f.RelString(f.Pkg.Pkg)
 	}
@@ -302,6 +314,13 @@ func (c *Ctx) addSpecFile(sf *SpecFile, p *packages.Package) error {
 		}
 	}
 	if p != nil {
+		for _, d := range sf.Dispatch {
+			t, err := c.resolveType(p.Types, d[1])
+			if err != nil {
+				return fmt.Errorf("CONTRACT-ERROR %s: dispatch: %v", sf.Path, err)
+			}
+			c.dispatch[p.PkgPath+"."+d[0]] = t
+		}
 		for _, fa := range sf.Fields {
 			obj := p.Types.Scope().Lookup(fa.Struct)
 			if obj == nil {
@@ -353,6 +372,13 @@ func (c *Ctx) addSpecFile(sf *SpecFile, p *packages.Package) error {
 func (c *Ctx) typesPkgOf(fn *ssa.Function) *types.Package {
 	if fn.Pkg != nil {
 		return fn.Pkg.Pkg
+	}
+	if fn.Synthetic != "" && fn.Signature.Recv() != nil {
+		if p, ok := fn.Signature.Recv().Type().(*types.Pointer); ok {
+			if n, ok := p.Elem().(*types.Named); ok && n.Obj().Pkg() != nil {
+				return n.Obj().Pkg()
+			}
+		}
 	}
 	if fn.Origin() != nil && fn.Origin().Pkg != nil {
 		return fn.Origin().Pkg.Pkg
